@@ -122,6 +122,28 @@ def buildSolverCache (thr : Nat) (P : Problem) (V : List Var) : Except GErr Cach
         | .error err => .error err
         | .ok ds => .ok ⟨f, g, ds⟩
 
+/-- the Hessian callable (`compile_hessian(obj_expr, variables)`, built lazily by `solve_scipy` for the methods in
+    `HESSIAN_METHODS`) -/
+def hessianFrom (src : GlueSrc) (V : List Var) (e : Expr) : Except GErr HessClo :=
+  match src with
+  | .compileHessian =>
+    match compileHessian e V with
+    | .ok c => .ok c
+    | .error err => .error (.jac err)
+  | _ => .error .glue
+
+/-- `obj_expr = problem.objective; if problem.sense == "maximize": obj_expr = -obj_expr` (Hessian block) -/
+def solverHessObjective (s : ObjSense) (obj : Expr) : Expr :=
+  match s with
+  | .maximize => if glueHessNegateOnMaximize then .un .neg obj else obj
+  | .minimize => obj
+
+/-- `cache["hess_fn"]` -/
+def buildHessian (P : Problem) (V : List Var) : Except GErr HessClo :=
+  match P.objective with
+  | none => .error .noObjective
+  | some obj => hessianFrom glueHessFn V (solverHessObjective P.sense obj)
+
 /-- `objective(x) = float(obj_fn(x))` -/
 def Cache.objective {α : Type} [NumAlg α] (c : Cache) (x : List α) (σ : Nat → α) : Except CErr α :=
   Clo.run x σ c.objFn
